@@ -23,12 +23,26 @@ RULE = ("Transactions with every (inputs, outputs) pair in 1..6 x 0..6, every in
         "extracted model and the extracted specification; an independent Python reference written from the BIPs is "
         "the property oracle; histories over {Query x2, EditOutput, EditInput, EditSequence, EditLocktime, "
         "EditWitness} are enumerated completely up to 4 steps (quick) / 5 steps plus sampled 6 (thorough), every "
-        "Query compared with a fresh Tx object.")
+        "Query compared with a fresh Tx object.  THE DIGEST AT THE POINT OF USE: hand-assembled spends of ten kinds "
+        "(p2pkh, p2wpkh, p2sh-p2wpkh, bare / p2sh / p2wsh / p2sh-p2wsh multisig, p2tr key path, tapscript CHECKSIG and "
+        "CHECKSIGADD) with real secp256k1 signatures made over the REFERENCE digest of each signature's own hash type, "
+        "mixed hash types inside one multisig input, relabelled / truncated / bit-flipped / empty / over-long "
+        "signatures, malformed keys and short stacks: op_checksig, op_checkmultisig, op_checksig_schnorr, "
+        "op_checksigadd_schnorr, Tx.verify_input, Tx.get_sig_legacy / get_sig_segwit / get_sig_taproot, "
+        "check_sig_legacy / check_sig_segwit, Tx.sign_input and the four sign_* methods, and sequences of sign_input "
+        "calls on ONE object followed by verify_input of every input, each compared with the extracted model "
+        "(Model/SighashSig.v with the primitives of Model/Pecc.v on secp256k1); predicates: the library's signatures "
+        "verify under the reference digest of the hash type they carry, signing one input never invalidates another.")
 TRUSTED = ["hashlib sha256 (hash256, sha256 and the tagged hashes are universally quantified functions in the theorems)",
            "the Python reference implementation of the three algorithms in harness/props/c05.py (test oracle only)",
            "modelled, not verified: TxIn.value()/script_pubkey() are taken as given inputs (pre-set _value/_script_pubkey, "
            "no fetch); S256Point.parse_xonly inside ControlBlock.parse is a parameter of the model (instantiated with "
-           "the extracted Model/Pecc.v code in the driver)"]
+           "the extracted Model/Pecc.v code in the driver)",
+           "the signature primitives of buidl/pecc.py (S256Point.parse / verify / verify_schnorr, Signature.parse, "
+           "SchnorrSignature.parse, PrivateKey.sign / sign_schnorr, point.sec) are universally quantified in the C05 "
+           "theorems (record sigprims); their correctness is C01 / C02 / C03; the correspondence runs the sites with "
+           "the extracted Model/Pecc.v on secp256k1",
+           "Script.evaluate / Tx.verify_input: the C06 model Model/Verify.v, run here with the digests of the Tx object"]
 ASSUMPTIONS = ["input_index >= 0 (a negative Python index wraps around; outside the model's domain)",
                "OP_CODESEPARATOR / FindAndDelete are out of scope: script codes are taken after those steps",
                "script codes are canonically encoded scripts (the library re-serialises the parsed redeem / witness / "
@@ -252,6 +266,165 @@ def i_history(tx, spent, ops):
     return out
 
 
+
+# ---------------------------------------------------------------------------
+# signature sites (Model/SighashSig.v): the op codes and Tx methods that pick a hash type, ask Tx.sig_hash*
+# for the digest and hand it to a signature primitive.  Signatures are real (secp256k1, buidl/pecc.py).
+
+def _quiet(f, *a, **k):
+    with contextlib.redirect_stdout(io.StringIO()):
+        return f(*a, **k)
+
+
+def _i_stack_op(name):
+    import buidl.op as bop
+    f = getattr(bop, name)
+
+    def g(tx, spent, idx, stack):
+        t = mk_tx(tx, spent)
+        st = [bytes(x) for x in stack]
+        if not _quiet(f, st, t, idx):
+            raise ValueError("op code function returned False")
+        return st
+    return g
+
+
+def _priv(secret, compressed=1):
+    from buidl.pecc import PrivateKey
+    return PrivateKey(secret, compressed=bool(compressed))
+
+
+def i_get_sig_legacy(tx, spent, idx, secret, redeem):
+    return mk_tx(tx, spent).get_sig_legacy(idx, _priv(secret), redeem_script=mk_opt_script(redeem))
+
+
+def i_get_sig_segwit(tx, spent, idx, secret, redeem, ws):
+    return mk_tx(tx, spent).get_sig_segwit(idx, _priv(secret), redeem_script=mk_opt_script(redeem),
+                                           witness_script=mk_opt_script(ws))
+
+
+def i_get_sig_taproot(tx, spent, idx, secret, ext, ht, aux):
+    return mk_tx(tx, spent).get_sig_taproot(idx, _priv(secret), ext_flag=ext, hash_type=ht, aux=aux)
+
+
+def i_check_sig_legacy(tx, spent, idx, sec, der, redeem):
+    from buidl.pecc import S256Point, Signature
+    return mk_tx(tx, spent).check_sig_legacy(idx, S256Point.parse(sec), Signature.parse(der), mk_opt_script(redeem))
+
+
+def i_check_sig_segwit(tx, spent, idx, sec, der, redeem, ws):
+    from buidl.pecc import S256Point, Signature
+    return mk_tx(tx, spent).check_sig_segwit(idx, S256Point.parse(sec), Signature.parse(der), mk_opt_script(redeem),
+                                             mk_opt_script(ws))
+
+
+def i_verify_input(tx, spent, idx):
+    t = mk_tx(tx, spent)
+    if not 0 <= idx < len(t.tx_ins):
+        raise IndexError("input index")
+    try:
+        return 1 if _quiet(t.verify_input, idx) else 0
+    except Exception:  # noqa  (an exception inside Script.evaluate is "not accepted", as in the C06 model)
+        return 0
+
+
+def _v_script(s):
+    return [list(s.commands), [s.raw] if s.raw else []]
+
+
+def _signed(t, idx, call):
+    """runs a Tx.sign_* call; the verdict is verify_input's (an exception raised inside verify_input counts as
+    False, as in the model; one raised before — no digest, no signature — is the call's own failure)"""
+    orig = Tx.verify_input
+
+    def vi(self_, i):
+        try:
+            return bool(orig(self_, i))
+        except Exception:  # noqa
+            return False
+    Tx.verify_input = vi
+    try:
+        ok = _quiet(call)
+    finally:
+        Tx.verify_input = orig
+    ti = t.tx_ins[idx]
+    return [_v_script(ti.script_sig), list(ti.witness.items), 1 if ok else 0]
+
+
+def i_sign_input(tx, spent, idx, secret, compressed, redeem, ht):
+    t = mk_tx(tx, spent)
+    return _signed(t, idx, lambda: t.sign_input(idx, _priv(secret, compressed), redeem_script=mk_opt_script(redeem),
+                                                hash_type=ht))
+
+
+def _i_sign(name):
+    def g(tx, spent, idx, secret, compressed):
+        t = mk_tx(tx, spent)
+        return _signed(t, idx, lambda: getattr(t, name)(idx, _priv(secret, compressed)))
+    return g
+
+
+def i_sign_p2tr_keypath(tx, spent, idx, secret, ht, aux):
+    t = mk_tx(tx, spent)
+    return _signed(t, idx, lambda: t.sign_p2tr_keypath(idx, _priv(secret), hash_type=ht, aux=aux))
+
+
+def i_taproot_sig_rule(sig):
+    """BIP341 'signature validation rules', written from the BIP text (model side: Spec/SigHashType.v)."""
+    if len(sig) == 64:
+        return [[sig, 0]]
+    if len(sig) == 65 and sig[64] != 0:
+        return [[sig[:64], sig[64]]]
+    return []
+
+
+
+def i_sign_many(tx, spent, steps):
+    """several sign_input calls on ONE Tx object, then verify_input of every input on that same object"""
+    t = mk_tx(tx, spent)
+    orig = Tx.verify_input
+
+    def vi(self_, i):
+        try:
+            return bool(orig(self_, i))
+        except Exception:  # noqa
+            return False
+    Tx.verify_input = vi
+    try:
+        res = []
+        for idx, secret, compressed, redeem, ht in steps:
+            ok = _quiet(t.sign_input, idx, _priv(secret, compressed), redeem_script=mk_opt_script(redeem), hash_type=ht)
+            res.append(1 if ok else 0)
+        final = [1 if _quiet(t.verify_input, i) else 0 for i in range(len(t.tx_ins))]
+    finally:
+        Tx.verify_input = orig
+    return [[[_v_script(ti.script_sig), list(ti.witness.items)] for ti in t.tx_ins], res, final]
+
+
+def p_sign_all_then_verify(tx, spent, steps):
+    """Every input of one Tx object is signed with Tx.sign_input, in the given order, by the key that can spend it:
+    every call returns True, afterwards EVERY input verifies on the same object and on a brand-new object with the
+    resulting fields (signing one input never invalidates another)."""
+    t = mk_tx(tx, spent)
+    for n, (idx, secret, compressed, redeem, ht) in enumerate(steps):
+        if not _quiet(t.sign_input, idx, _priv(secret, compressed), redeem_script=mk_opt_script(redeem), hash_type=ht):
+            return f"step {n}: sign_input({idx}) returned False"
+        for j, *_r in steps[: n + 1]:
+            if not _quiet(t.verify_input, j):
+                return f"after signing input {idx} (step {n}), the earlier signed input {j} no longer verifies"
+    f = fresh_copy(t)
+    for i in range(len(t.tx_ins)):
+        if not _quiet(f.verify_input, i):
+            return f"input {i} does not verify on a fresh object with the signed fields"
+    return None
+
+
+# 256-bit curve arithmetic: too slow for the in-Coq re-evaluation of sampled cases
+VM_SKIP = {"op_checksig", "op_checkmultisig", "op_checksig_schnorr", "op_checksigadd_schnorr", "get_sig_legacy",
+           "get_sig_segwit", "get_sig_taproot", "check_sig_legacy", "check_sig_segwit", "verify_input", "sign_input",
+           "sign_p2pkh", "sign_p2wpkh", "sign_p2sh_p2wpkh", "sign_p2tr_keypath", "sign_many"}
+
+
 IMPL = {
     "has_annex": i_has_annex,
     "legacy": i_legacy,
@@ -261,6 +434,23 @@ IMPL = {
     "sig_hash": i_sig_hash,
     "spec_sig_hash": i_sig_hash,      # model side = the extracted SPECIFICATION (Spec/SighashStd.v)
     "history": i_history,
+    "op_checksig": _i_stack_op("op_checksig"),
+    "op_checkmultisig": _i_stack_op("op_checkmultisig"),
+    "op_checksig_schnorr": _i_stack_op("op_checksig_schnorr"),
+    "op_checksigadd_schnorr": _i_stack_op("op_checksigadd_schnorr"),
+    "get_sig_legacy": i_get_sig_legacy,
+    "get_sig_segwit": i_get_sig_segwit,
+    "get_sig_taproot": i_get_sig_taproot,
+    "check_sig_legacy": i_check_sig_legacy,
+    "check_sig_segwit": i_check_sig_segwit,
+    "verify_input": i_verify_input,
+    "sign_input": i_sign_input,
+    "sign_p2pkh": _i_sign("sign_p2pkh"),
+    "sign_p2wpkh": _i_sign("sign_p2wpkh"),
+    "sign_p2sh_p2wpkh": _i_sign("sign_p2sh_p2wpkh"),
+    "sign_p2tr_keypath": i_sign_p2tr_keypath,
+    "taproot_sig_rule": i_taproot_sig_rule,
+    "sign_many": i_sign_many,
 }
 
 
@@ -969,6 +1159,133 @@ def p_verifier_digest(kind_i, n_in, n_out, idx, hts, salt, nalt=0):
                         f"{'equal' if want else 'different'}")
     return None
 
+
+def _ref_digest_int(txv, spent, idx, ht):
+    d = ref_sig_hash(txv, spent, idx, ht)
+    if d is None:
+        return None
+    return d[2] if isinstance(d[2], int) else int.from_bytes(d[2], "big")
+
+
+def p_signer_digest(kind, txv, spent, idx, secret, redeem, ws):
+    """The digest the library SIGNS: the signature returned by Tx.get_sig_legacy / get_sig_segwit / get_sig_taproot
+    verifies under the REFERENCE digest of the hash type it carries (and that is SIGHASH_ALL for the ECDSA signers,
+    the requested type for taproot, no byte for DEFAULT)."""
+    from buidl.pecc import Signature, SchnorrSignature
+    if isinstance(kind, bytes):          # replayed arguments are canonical values: text arrives as bytes
+        kind = kind.decode()
+    priv = _priv(secret)
+    if kind.startswith("p2tr"):
+        ext = 0 if kind == "p2tr-key" else 1
+        for ht in HASH_TYPES:
+            want = _ref_digest_int(txv, spent, idx, ht)
+            try:
+                sig = mk_tx(txv, spent).get_sig_taproot(idx, priv, ext_flag=ext, hash_type=ht, aux=bytes(32))
+            except Exception as e:  # noqa
+                if want is None:
+                    continue
+                return f"get_sig_taproot(hash_type={hex(ht)}) raised {type(e).__name__}, the reference has a digest"
+            if want is None:
+                return f"get_sig_taproot(hash_type={hex(ht)}) signed although BIP341 defines no digest"
+            rule = i_taproot_sig_rule(sig)
+            if not rule or rule[0][1] != ht:
+                return f"get_sig_taproot(hash_type={hex(ht)}) returned {len(sig)} bytes ending {sig[-1:].hex()}: BIP341 reads {rule}"
+            if not priv.point.verify_schnorr(want.to_bytes(32, "big"), SchnorrSignature.parse(rule[0][0])):
+                return f"get_sig_taproot(hash_type={hex(ht)}): the signature does not verify under the reference digest"
+        return None
+    t = mk_tx(txv, spent)
+    if kind in ("p2pkh", "bare-multisig", "p2sh-multisig"):
+        sig = t.get_sig_legacy(idx, priv, redeem_script=mk_opt_script(redeem))
+    else:
+        sig = t.get_sig_segwit(idx, priv, redeem_script=mk_opt_script(redeem), witness_script=mk_opt_script(ws))
+    if sig[-1] != 1:
+        return f"the ECDSA signer appended hash type {sig[-1]}, it hashes SIGHASH_ALL"
+    want = _ref_digest_int(txv, spent, idx, 1)
+    if not priv.point.verify(want, Signature.parse(sig[:-1])):
+        return f"{kind}: the signature made by the library does not verify under the reference SIGHASH_ALL digest"
+    return None
+
+
+def p_sign_then_verify(tx, spent, idx, secret, compressed, redeem, ht):
+    """Tx.sign_input on an input the key can spend returns True; the signature it placed carries a hash type whose
+    REFERENCE digest it verifies under; a brand-new Tx object with the resulting fields verifies too."""
+    from buidl.pecc import Signature, SchnorrSignature
+    t = mk_tx(tx, spent)
+    priv = _priv(secret, compressed)
+    ok = _quiet(t.sign_input, idx, priv, redeem_script=mk_opt_script(redeem), hash_type=ht)
+    if not ok:
+        return "sign_input returned False for an input the key can spend"
+    if not _quiet(fresh_copy(t).verify_input, idx):
+        return "a fresh Tx object with the signed fields does not verify"
+    ti = t.tx_ins[idx]
+    after = copy.deepcopy(tx)
+    after[1][idx][2] = _v_script(ti.script_sig)
+    after[1][idx][4] = list(ti.witness.items)
+    spk = spent[idx][1][0]
+    if len(spk) == 2 and spk[0] == 0x51:
+        rule = i_taproot_sig_rule(ti.witness.items[0])
+        if not rule:
+            return "the taproot signature placed by sign_input is invalid under BIP341's length / hash type rule"
+        s64, sht = rule[0]
+        if sht != ht:
+            return f"signed for hash type {hex(ht)}, the signature says {hex(sht)}"
+        want = _ref_digest_int(after, spent, idx, sht)
+        if want is None or not priv.point.verify_schnorr(want.to_bytes(32, "big"), SchnorrSignature.parse(s64)):
+            return "the taproot signature does not verify under the reference digest of its hash type"
+        return None
+    sig = ti.witness.items[0] if ti.witness.items else ti.script_sig.commands[0]
+    want = _ref_digest_int(after, spent, idx, sig[-1])
+    if not priv.point.verify(want, Signature.parse(sig[:-1])):
+        return "the signature does not verify under the reference digest of the hash type it carries"
+    return None
+
+
+
+TSR_VARIANTS = ["explicit-default-65-bytes", "two-trailing-bytes", "ten-trailing-bytes", "undefined-hash-type-04",
+                "undefined-hash-type-80", "undefined-hash-type-ff"]
+
+
+def p_taproot_sig_rule(variant, salt):
+    """(known finding) BIP341 signature validation: a signature is 64 bytes (SIGHASH_DEFAULT) or 65 bytes with a
+    DEFINED, non-zero hash type; anything else fails.  A key-path spend whose only defect is the form of the
+    signature must be rejected by Tx.verify_input (a well-formed one is accepted)."""
+    c = _site_spend(VD_KINDS.index("p2tr-key"), 1 + salt % 2, 1, 0, 7000 + salt)
+    good = c["sign"](0, 0, 0)
+    t = mk_tx(c["with_sigs"]([good]), c["spent"])
+    if not _quiet(t.verify_input, 0):
+        return "a well-formed key-path spend (64-byte signature) is rejected"
+    name = TSR_VARIANTS[variant]
+    if name == "explicit-default-65-bytes":
+        sig = good + b"\x00"
+    elif name == "two-trailing-bytes":
+        sig = good + b"\x01\x02"
+    elif name == "ten-trailing-bytes":
+        sig = good + bytes(10)
+    else:
+        ht = int(name[-2:], 16)
+        # signed over the digest the LIBRARY computes for that byte (BIP341 defines none)
+        probe = mk_tx(c["with_sigs"]([good]), c["spent"])
+        msg = probe.sig_hash_bip341(0, ext_flag=0, hash_type=ht)
+        sig = c["privs"][0].sign_schnorr(msg, bytes(32)).serialize() + bytes([ht])
+    rule = i_taproot_sig_rule(sig)
+    if rule and rule[0][1] in HASH_TYPES:
+        return "harness error: the mutated signature is well-formed"
+    t = mk_tx(c["with_sigs"]([sig]), c["spent"])
+    try:
+        ok = bool(_quiet(t.verify_input, 0))
+    except Exception:  # noqa
+        ok = False
+    if ok:
+        return (f"{name}: Tx.verify_input accepts a taproot key-path spend whose signature ({len(sig)} bytes, last byte "
+                f"{sig[-1]:02x}) is invalid by BIP341's signature validation rule")
+    return None
+
+
+def p_hash_type_mask(tx, spent, idx, ht):
+    """(known finding) ECDSA hash types outside the standard set: consensus selects NONE / SINGLE with `& 0x1f`."""
+    return p_digest_eq_reference(tx, spent, idx, ht)
+
+
 PROPS = {
     "digest_eq_reference": p_digest_eq_reference,
     "builders_eq_reference": p_builders_eq_reference,
@@ -978,12 +1295,21 @@ PROPS = {
     "history_ext": p_history_ext,
     "script_code_raw": p_script_code_raw,
     "verifier_digest": p_verifier_digest,
+    "signer_digest": p_signer_digest,
+    "sign_then_verify": p_sign_then_verify,
+    "taproot_sig_rule": p_taproot_sig_rule,
+    "hash_type_mask": p_hash_type_mask,
+    "sign_all_then_verify": p_sign_all_then_verify,
 }
 
 
 def classify(v):
     if v.get("kind") == "prop" and v.get("name") == "script_code_raw":
         return "C05-script-code-reserialized"
+    if v.get("kind") == "prop" and v.get("name") == "taproot_sig_rule":
+        return "C05-taproot-signature-form"
+    if v.get("kind") == "prop" and v.get("name") == "hash_type_mask":
+        return "C05-nonstandard-hash-type-mask"
     return None
 
 
@@ -1262,6 +1588,330 @@ def ext_histories(ctx):
 
 
 
+# ---------------------------------------------------------------------------
+# generators for the signature sites
+
+def _enc_num(n):
+    """script number encoding (reference, as in Bitcoin Core's CScriptNum::serialize)"""
+    if n == 0:
+        return b""
+    a, out = abs(n), bytearray()
+    while a:
+        out.append(a & 0xff)
+        a >>= 8
+    if out[-1] & 0x80:
+        out.append(0x80 if n < 0 else 0)
+    elif n < 0:
+        out[-1] |= 0x80
+    return bytes(out)
+
+
+def _site_spend(kind_i, n_in, n_out, idx, salt):
+    """A hand-assembled spend of kind VD_KINDS[kind_i] with real keys: returns a dict with the transaction value
+    builder, the reference digest of each hash type and a signing function."""
+    kind, privs, signers, schnorr, txv, spent, place = _vd_spend(kind_i, n_in, n_out, idx, [1], salt)
+    n_keys = len(privs)
+
+    def with_sigs(sg):
+        ss, wit = place(sg)
+        v = copy.deepcopy(txv)
+        v[1][idx][2] = ss
+        v[1][idx][4] = wit
+        return v
+
+    def digest(ht):
+        d = ref_sig_hash(with_sigs([b"\x30" * 70] * n_keys), spent, idx, ht)
+        if d is None:
+            return None
+        return d[2] if isinstance(d[2], int) else int.from_bytes(d[2], "big")
+
+    def sign(k, ht_digest, ht_label, explicit=False):
+        z = digest(ht_digest)
+        if z is None:
+            z = 1
+        if schnorr:
+            sig = privs[k].sign_schnorr(z.to_bytes(32, "big"), bytes(32)).serialize()
+            return sig if (ht_label == 0 and not explicit) else sig + bytes([ht_label])
+        return privs[k].sign(z).der() + bytes([ht_label])
+    keys = [pk.point.xonly() if schnorr else pk.point.sec() for pk in privs]
+    return {"kind": kind, "privs": privs, "signers": signers, "schnorr": schnorr, "spent": spent, "with_sigs": with_sigs,
+            "digest": digest, "sign": sign, "keys": keys, "n_keys": n_keys}
+
+
+def _mutations(ctx, sig):
+    """malformed variants of a signature (with its hash-type byte)"""
+    r = ctx.rng
+    j = r.randrange(max(1, len(sig) - 1))
+    yield "bit-flip", sig[:j] + bytes([sig[j] ^ (1 << r.randrange(8))]) + sig[j + 1:]
+    yield "truncated", sig[: r.randrange(1, len(sig))]
+    yield "one-byte", sig[-1:]
+    yield "empty", b""
+    yield "extended", sig[:-1] + bytes([r.randrange(256)]) + sig[-1:]
+
+
+def sig_sites(ctx):
+    r = ctx.rng
+    shapes = [(1, 1, 0), (2, 1, 1), (3, 2, 2), (2, 3, 0), (1, 0, 0), (3, 1, 1)]
+    std_e = [1, 2, 3, 0x81, 0x82, 0x83]
+    salt = 1000
+    for kind_i, kind in enumerate(VD_KINDS):
+        for j in range(ctx.n(2, 10)):
+            salt += 1
+            n_in, n_out, idx = shapes[(j + kind_i) % len(shapes)]
+            c = _site_spend(kind_i, n_in, n_out, idx, salt)
+            schnorr, keys, nk, spent = c["schnorr"], c["keys"], c["n_keys"], c["spent"]
+            std = ([0] if schnorr else []) + std_e
+            hts = [std[(salt + k) % len(std)] for k in range(nk)]
+            hts = [h if c["digest"](h) is not None else 1 for h in hts]
+            good = [c["sign"](k, hts[k], hts[k]) for k in range(nk)]
+            placed = [good[k] if k in c["signers"] else b"" for k in range(nk)]
+            txv = c["with_sigs"](placed)
+            ctx.label("sites/" + kind)
+            # ---- the complete verifier on the assembled spend, and on a relabelled one
+            yield ("corr", "verify_input", [txv, spent, idx])
+            k0 = c["signers"][0]
+            alt = [a for a in std if a != hts[k0]][salt % (len(std) - 1)]
+            bad = list(placed)
+            bad[k0] = c["sign"](k0, hts[k0], alt)
+            yield ("corr", "verify_input", [c["with_sigs"](bad), spent, idx])
+            if not schnorr:
+                # ---- op_checksig: [sig, sec]
+                for k in range(min(nk, 2)):
+                    yield ("corr", "op_checksig", [txv, spent, idx, [good[k], keys[k]]])
+                yield ("corr", "op_checksig", [txv, spent, idx, [b"\x07", c["sign"](0, hts[0], alt), keys[0]]])
+                yield ("corr", "op_checksig", [txv, spent, idx, [good[0], keys[(1 % nk)] if nk > 1 else c["privs"][0].point.sec(False)]])
+                if j == 0 and (ctx.tier != "quick" or kind in ("p2pkh", "p2wpkh", "p2sh-multisig")):
+                    for lbl, sg in _mutations(ctx, good[0]):
+                        ctx.label("sites/ecdsa-sig-" + lbl)
+                        yield ("corr", "op_checksig", [txv, spent, idx, [sg, keys[0]]])
+                    for lbl, pk in [("bad-prefix", b"\x05" + keys[0][1:]), ("34-bytes", keys[0] + b"\x00"), ("empty", b""),
+                                    ("not-on-curve", b"\x02" + invalid_x(ctx)), ("xonly-32", keys[0][1:]),
+                                    ("uncompressed", c["privs"][0].point.sec(False))]:
+                        ctx.label("sites/ecdsa-key-" + lbl)
+                        yield ("corr", "op_checksig", [txv, spent, idx, [good[0], pk]])
+                    yield ("corr", "op_checksig", [txv, spent, idx, [good[0]]])
+                    yield ("corr", "op_checksig", [txv, spent, idx, []])
+                    yield ("corr", "op_checksig", [txv, spent, n_in, [good[0], keys[0]]])
+                    # a hash type outside the standard set: the byte is hashed as it is
+                    for ht in (0, 4, 0x80, 0x41, 0xff):
+                        yield ("corr", "op_checksig", [txv, spent, idx, [c["sign"](0, 1, ht), keys[0]]])
+                # ---- Tx.get_sig_* / check_sig_* with the library's own signer
+                secret = c["privs"][0].secret
+                ti = txv[1][idx]
+                if kind in ("p2pkh", "bare-multisig"):
+                    args = [txv, spent, idx, secret, []]
+                    yield ("corr", "get_sig_legacy", args)
+                    yield ("prop", "signer_digest", [kind, txv, spent, idx, secret, [], []])
+                elif kind == "p2sh-multisig":
+                    red = S(list(Script.parse(raw=ti[2][0][-1]).commands))
+                    yield ("corr", "get_sig_legacy", [txv, spent, idx, secret, [red]])
+                    yield ("prop", "signer_digest", [kind, txv, spent, idx, secret, [red], []])
+                elif kind == "p2wpkh":
+                    yield ("corr", "get_sig_segwit", [txv, spent, idx, secret, [], []])
+                    yield ("prop", "signer_digest", [kind, txv, spent, idx, secret, [], []])
+                elif kind == "p2sh-p2wpkh":
+                    red = S(list(Script.parse(raw=ti[2][0][-1]).commands))
+                    yield ("corr", "get_sig_segwit", [txv, spent, idx, secret, [red], []])
+                    yield ("prop", "signer_digest", [kind, txv, spent, idx, secret, [red], []])
+                else:
+                    ws = S(list(Script.parse(raw=ti[4][-1]).commands))
+                    yield ("corr", "get_sig_segwit", [txv, spent, idx, secret, [], [ws]])
+                    yield ("prop", "signer_digest", [kind, txv, spent, idx, secret, [], [ws]])
+                der_all = c["sign"](0, 1, 1)[:-1]
+                if kind in ("p2pkh", "bare-multisig"):
+                    yield ("corr", "check_sig_legacy", [txv, spent, idx, keys[0], der_all, []])
+                    yield ("corr", "check_sig_legacy", [txv, spent, idx, keys[0], good[0][:-1], []])
+                elif kind == "p2wpkh":
+                    yield ("corr", "check_sig_segwit", [txv, spent, idx, keys[0], der_all, [], []])
+                    yield ("corr", "check_sig_segwit", [txv, spent, idx, keys[0], der_all[:-1], [], []])
+                elif kind == "p2wsh-multisig":
+                    ws = S(list(Script.parse(raw=ti[4][-1]).commands))
+                    yield ("corr", "check_sig_segwit", [txv, spent, idx, keys[0], der_all, [], [ws]])
+                    yield ("corr", "check_sig_segwit", [txv, spent, idx, keys[1], der_all, [], [ws]])
+                # ---- op_checkmultisig on the same transaction: [dummy, sigs.., m, keys.., n]
+                if nk >= 2:
+                    sg = c["signers"]
+                    sigs = [good[k] for k in sg]
+
+                    def ms(sigs_, keys_, m_=None, n_=None, dummy=(b"",)):
+                        return list(dummy) + list(sigs_) + [_enc_num(len(sigs_) if m_ is None else m_)] + list(keys_) + \
+                            [_enc_num(len(keys_) if n_ is None else n_)]
+                    ctx.label("sites/checkmultisig")
+                    yield ("corr", "op_checkmultisig", [txv, spent, idx, ms(sigs, keys)])
+                    yield ("corr", "op_checkmultisig", [txv, spent, idx, [b"\x55"] + ms(sigs, keys)])
+                    yield ("corr", "op_checkmultisig", [txv, spent, idx, ms(sigs[::-1], keys)])
+                    yield ("corr", "op_checkmultisig", [txv, spent, idx, ms([sigs[0], sigs[0]], keys)])
+                    yield ("corr", "op_checkmultisig", [txv, spent, idx, ms(sigs[:1], keys)])
+                    yield ("corr", "op_checkmultisig", [txv, spent, idx, ms([bad[k] for k in sg], keys)])
+                    yield ("corr", "op_checkmultisig", [txv, spent, idx, ms(sigs, keys[::-1])])
+                    if j == 0 and (ctx.tier != "quick" or kind in ("bare-multisig", "p2wsh-multisig")):
+                        yield ("corr", "op_checkmultisig", [txv, spent, idx, ms([], keys)])
+                        yield ("corr", "op_checkmultisig", [txv, spent, idx, ms([], [])])
+                        yield ("corr", "op_checkmultisig", [txv, spent, idx, ms(sigs, keys, dummy=())])
+                        yield ("corr", "op_checkmultisig", [txv, spent, idx, ms(sigs, keys, n_=nk + 1)])
+                        yield ("corr", "op_checkmultisig", [txv, spent, idx, ms(sigs, keys, n_=-1)])
+                        yield ("corr", "op_checkmultisig", [txv, spent, idx, ms(sigs, keys, m_=len(sigs) + 1)])
+                        yield ("corr", "op_checkmultisig", [txv, spent, idx, ms(sigs, keys, m_=-1)])
+                        yield ("corr", "op_checkmultisig", [txv, spent, idx, ms([sigs[0], b""], keys)])
+                        yield ("corr", "op_checkmultisig", [txv, spent, idx, ms([sigs[0][:5] + sigs[0][-1:], sigs[1]], keys)])
+                        yield ("corr", "op_checkmultisig", [txv, spent, idx, ms(sigs, [keys[0], b"\x05" + keys[1][1:]] + keys[2:])])
+                        yield ("corr", "op_checkmultisig", [txv, spent, idx, []])
+                        yield ("corr", "op_checkmultisig", [txv, spent, idx, [_enc_num(1)]])
+            else:
+                # ---- op_checksig_schnorr: [sig, xonly key]; op_checksigadd_schnorr: [sig, n, xonly key]
+                k0 = c["signers"][0]
+                base = c["sign"](k0, 0, 0)            # 64 bytes over the DEFAULT digest
+                variants = [("good", good[k0]), ("relabelled", c["sign"](k0, hts[k0], alt)),
+                            ("65-bytes-hash-type-00", c["sign"](k0, 0, 0, explicit=True)),
+                            ("65-bytes-undefined-hash-type", c["sign"](k0, 1, r.choice([4, 0x80, 0x84, 0x41, 0xff]))),
+                            ("66-bytes", base + ctx.rbytes(2)), ("63-bytes", base[:-1]), ("empty", b""),
+                            ("wrong-key", c["sign"]((k0 + 1) % nk, hts[k0], hts[k0]) if nk > 1 else good[k0][::-1])]
+                for lbl, sg in variants:
+                    ctx.label("sites/schnorr-sig-" + lbl)
+                    yield ("corr", "op_checksig_schnorr", [txv, spent, idx, [sg, keys[k0]]])
+                    yield ("corr", "op_checksigadd_schnorr", [txv, spent, idx, [sg, _enc_num(r.choice([0, 1, 2, 16, 127, 128, -1])), keys[k0]]])
+                    yield ("corr", "taproot_sig_rule", [sg])
+                if j == 0:
+                    for lbl, pk in [("not-on-curve", invalid_x(ctx)), ("33-bytes", b"\x02" + keys[k0]), ("empty", b""),
+                                    ("zero", bytes(32))]:
+                        ctx.label("sites/schnorr-key-" + lbl)
+                        yield ("corr", "op_checksig_schnorr", [txv, spent, idx, [good[k0], pk]])
+                        yield ("corr", "op_checksigadd_schnorr", [txv, spent, idx, [good[k0], b"", pk]])
+                    yield ("corr", "op_checksig_schnorr", [txv, spent, idx, [good[k0]]])
+                    yield ("corr", "op_checksigadd_schnorr", [txv, spent, idx, [good[k0], keys[k0]]])
+                    yield ("corr", "op_checksigadd_schnorr", [txv, spent, idx, [good[k0], b"\x01\x00\x00\x00\x80", keys[k0]]])
+                    # digest of the wrong Python type: the ECDSA op code on a taproot input
+                    yield ("corr", "op_checksig", [txv, spent, idx, [privs_der(c, 1), c["privs"][k0].point.sec()]])
+                    yield ("corr", "op_checksig", [txv, spent, idx, [bytes.fromhex("3006020100020101") + b"\x01", c["privs"][k0].point.sec()]])
+                secret = c["privs"][k0].secret
+                ext = 0 if kind == "p2tr-key" else 1
+                for ht in ([hts[k0], 0] if j else [0] + std_e + [4]):
+                    yield ("corr", "get_sig_taproot", [txv, spent, idx, secret, ext, ht, ctx.rbytes(32)])
+                yield ("prop", "signer_digest", [kind, txv, spent, idx, secret, [], []])
+    # ---- the Schnorr op codes on a non-taproot input (the digest is an int)
+    c = _site_spend(VD_KINDS.index("p2wpkh"), 1, 1, 0, 4242)
+    txv = c["with_sigs"]([c["sign"](0, 1, 1)])
+    x = c["privs"][0].point.xonly()
+    yield ("corr", "op_checksig_schnorr", [txv, c["spent"], 0, [ctx.rbytes(64), x]])
+    yield ("corr", "op_checksig_schnorr", [txv, c["spent"], 0, [bytes(32) + ctx.rbytes(32), x]])
+    yield ("corr", "op_checksigadd_schnorr", [txv, c["spent"], 0, [x + bytes(31) + b"\x01", b"\x01", x]])
+
+    # ---- Tx.sign_input and the four sign_* methods on unsigned transactions
+    from buidl.helper import hash160 as _h160
+    from buidl.pecc import PrivateKey
+    for j in range(ctx.n(14, 80)):
+        secret = r.randrange(1, 2 ** 250)
+        compressed = 0 if j % 5 == 4 else 1
+        priv = PrivateKey(secret, compressed=bool(compressed))
+        sec = priv.point.sec(bool(compressed))
+        kind = ["p2pkh", "p2wpkh", "p2sh-p2wpkh", "p2tr", "p2pkh-other-key", "p2wsh", "p2sh-p2wpkh-no-redeem"][j % 7]
+        n_in = 1 + j % 3
+        idx = j % n_in
+        tx, spent = make_tx(ctx, n_in, 1 + j % 2, ["p2wpkh"] * n_in)
+        for ti in tx[1]:
+            ti[2], ti[4] = S([]), []
+        tx[0], tx[3] = 2, r.choice([0, 5])
+        redeem = []
+        ht = 1
+        if kind == "p2pkh":
+            spent[idx][1] = S([0x76, 0xa9, _h160(sec), 0x88, 0xac])
+        elif kind == "p2pkh-other-key":
+            spent[idx][1] = S([0x76, 0xa9, ctx.rbytes(20), 0x88, 0xac])
+        elif kind == "p2wpkh":
+            spent[idx][1] = S([0, _h160(sec)])
+        elif kind.startswith("p2sh-p2wpkh"):
+            red = [0, _h160(priv.point.sec(True))]
+            spent[idx][1] = S([0xa9, _h160(ref_raw_script(S(red))), 0x87])
+            redeem = [S(red)] if kind == "p2sh-p2wpkh" else []
+        elif kind == "p2tr":
+            tw = priv.tweaked_key()
+            secret = tw.secret
+            spent[idx][1] = S([0x51, tw.point.xonly()])
+            ht = r.choice(HASH_TYPES + [1])
+            if ht & 3 == 3 and idx >= len(tx[2]):
+                ht = 1
+            if j % 4 == 3:       # a witness with an annex before signing: signed with, verified without
+                tx[1][idx][4] = [ctx.rbytes(64), r_annex(ctx)]
+        else:
+            spent[idx][1] = S([0, ctx.rbytes(32)])
+        ctx.label("sites/sign_input/" + kind)
+        yield ("corr", "sign_input", [tx, spent, idx, secret, compressed, redeem, ht])
+        if kind in ("p2pkh", "p2wpkh"):
+            yield ("corr", "sign_" + kind, [tx, spent, idx, secret, compressed])
+            yield ("prop", "sign_then_verify", [tx, spent, idx, secret, compressed, redeem, ht])
+        elif kind == "p2sh-p2wpkh":
+            yield ("corr", "sign_p2sh_p2wpkh", [tx, spent, idx, secret, compressed])
+            if compressed:     # the redeem script commits to the compressed key, the witness carries key.sec(compressed)
+                yield ("prop", "sign_then_verify", [tx, spent, idx, secret, compressed, redeem, ht])
+        elif kind == "p2tr":
+            yield ("corr", "sign_p2tr_keypath", [tx, spent, idx, secret, ht, ctx.rbytes(32)])
+            if not tx[1][idx][4]:
+                yield ("prop", "sign_then_verify", [tx, spent, idx, secret, compressed, redeem, ht])
+        if j == 0:
+            yield ("corr", "sign_input", [tx, spent, n_in, secret, compressed, redeem, ht])
+            yield ("corr", "verify_input", [tx, spent, n_in])
+
+    # ---- one object, every input signed by Tx.sign_input in a random order, then every input verified
+    for j in range(ctx.n(3, 20)):
+        n_in = 2 + j % 3
+        tx, spent = make_tx(ctx, n_in, 1 + j % 3, ["p2wpkh"] * n_in)
+        tx[0], tx[3] = 2, 0
+        steps = []
+        for idx in range(n_in):
+            tx[1][idx][2], tx[1][idx][4] = S([]), []
+            secret = r.randrange(1, 2 ** 250)
+            priv = PrivateKey(secret)
+            sec = priv.point.sec()
+            kind = ["p2pkh", "p2wpkh", "p2sh-p2wpkh", "p2tr"][(idx + j) % 4]
+            redeem, ht = [], 1
+            if kind == "p2pkh":
+                spent[idx][1] = S([0x76, 0xa9, _h160(sec), 0x88, 0xac])
+            elif kind == "p2wpkh":
+                spent[idx][1] = S([0, _h160(sec)])
+            elif kind == "p2sh-p2wpkh":
+                red = [0, _h160(sec)]
+                spent[idx][1] = S([0xa9, _h160(ref_raw_script(S(red))), 0x87])
+                redeem = [S(red)]
+            else:
+                tw = priv.tweaked_key()
+                secret = tw.secret
+                spent[idx][1] = S([0x51, tw.point.xonly()])
+                ht = r.choice([0, 1, 2, 0x81, 0x82] + ([3, 0x83] if idx < len(tx[2]) else []))
+            steps.append([idx, secret, 1, redeem, ht])
+        r.shuffle(steps)
+        ctx.label(f"sites/sign_many/inputs={n_in}")
+        yield ("corr", "sign_many", [tx, spent, steps])
+        yield ("prop", "sign_all_then_verify", [tx, spent, steps])
+        if j == 0:       # an input signed twice, and a step that cannot be signed (the call raises)
+            yield ("corr", "sign_many", [tx, spent, steps + steps[:1]])
+            bad = copy.deepcopy(spent)
+            bad[0][1] = S([0x51])
+            yield ("corr", "sign_many", [tx, bad, steps])
+
+    # ---- known findings at the point of use: the form of taproot signatures, the hash type mask
+    for variant in range(len(TSR_VARIANTS)):
+        ctx.label("sites/known/taproot-signature-form/" + TSR_VARIANTS[variant])
+        yield ("prop", "taproot_sig_rule", [variant, variant + ctx.n(0, 3)])
+    tx, spent = make_tx(ctx, 2, 2, ["p2pkh", "p2wpkh"])
+    for idx in (0, 1):
+        for ht in (6, 7, 0x86):
+            ctx.label("sites/known/hash-type-mask")
+            yield ("prop", "hash_type_mask", [tx, spent, idx, ht])
+        for ht in (4, 5, 0x20, 0x21, 0x22, 0x41, 0xc1):        # bytes on which `& 3` and `& 0x1f` agree
+            yield ("prop", "digest_eq_reference", [tx, spent, idx, ht])
+
+    # ---- BIP341 signature rule: lengths around 64 / 65 and every last byte
+    for n in (0, 1, 32, 63, 64, 65, 66, 96, 128):
+        yield ("corr", "taproot_sig_rule", [ctx.rbytes(n)])
+    for b in range(256):
+        yield ("corr", "taproot_sig_rule", [ctx.rbytes(64) + bytes([b])])
+
+
+def privs_der(c, ht):
+    """an ECDSA signature (made with key 0 of the case) with hash-type byte ht"""
+    return c["privs"][0].sign(12345).der() + bytes([ht])
+
+
 def generate(ctx):
     r = ctx.rng
     # --- Witness.has_annex: exhaustive small shapes + random
@@ -1312,6 +1962,9 @@ def generate(ctx):
             salt += 1
             ctx.label("verifier_digest/" + VD_KINDS[kind_i] + ("/mixed-hash-types" if len(set(hts)) > 1 else ""))
             yield ("prop", "verifier_digest", [kind_i, n_in, n_out, idx, hts, salt, 2 if ctx.tier == "quick" else 0])
+
+    # --- the signature sites: op codes and Tx methods that choose the hash type and use the digest
+    yield from sig_sites(ctx)
 
     # --- the grid: 1..6 inputs x 0..6 outputs, every index, all hash types, every kind
     per_cell = ctx.n(4, 25)
